@@ -102,6 +102,8 @@ type submitCase struct {
 	Subs     []subSpec `json:"subs"`
 	// Nodes (if not empty, replaces NClients/Second): behaviour per configured node, in the daemon's order
 	Nodes []int `json:"nodes,omitempty"`
+	// Part C (querier_test.go): answers of the configured nodes to a sequence of chain queries
+	Q querierCase `json:"q,omitempty"`
 }
 
 // node behaviours
@@ -172,6 +174,7 @@ func genSubmit(rt *rapid.T) submitCase {
 		s.KeyFault = gen.Pick(rt, "keyfault", 86, 4, 4, 3, 3)
 		c.Subs = append(c.Subs, s)
 	}
+	c.Q = genQuerier(rt)
 	return c
 }
 
@@ -743,6 +746,9 @@ func runSubmit(c submitCase) *pbt.Verdict {
 		if uint64(len(executed)) > c.MaxTry {
 			v.Count("more_attempts_than_max_try", 1)
 		}
+	}
+	if v.Violation == "" {
+		runQuerier(v, c.Q, clientCtx, app.AppCodec(), valAddr)
 	}
 	w.mu.Lock()
 	defer w.mu.Unlock()
